@@ -18,7 +18,7 @@ import (
 // min-width or max-width applies.
 func c10Rerun(c *core.Check) {
 	p := c.Prog
-	r := c.Rule("R15", "re-run from the same state: for every function wrapped by handleMinMaxWidth / handleMinMaxHeight, each box field it updates from its own previous value is stored by the wrapper between two calls of the function (like the computed margins); functions that only assign fresh values need nothing", 9)
+	r := c.Rule("R15", "re-run from the same state: for every function wrapped by handleMinMaxWidth / handleMinMaxHeight, each box field it updates from its own previous value is stored by the wrapper between two calls of the function (like the computed margins); functions that only assign fresh values need nothing", 8)
 	pk := p.ByPath["html/layout"]
 	if pk == nil {
 		r.Anchor("package html/layout")
@@ -175,7 +175,7 @@ func c10SavedBeforeFirstRun(c *core.Check) {
 // c12PageMarginsRerun (R10): the same rule for the page boxes: the vertical auto margins of an @page rule are
 // recomputed after a min-/max-height clamp only if handleMinMaxHeight restores the margins it saved before the run.
 func c12PageMarginsRerun(c *core.Check) {
-	r := c.Rule("R10", "auto margins of a page are recomputed after a min-/max-height clamp: in handleMinMaxHeight the margins stored back before the second run were loaded before the first (shared with C10.R16)", 4)
+	r := c.Rule("R10", "auto margins of a page are recomputed after a min-/max-height clamp: in handleMinMaxHeight the margins stored back before the second run were loaded before the first (shared with C10.R16)", 2)
 	savedBeforeFirstRunRule(c, r, "handleMinMaxHeight")
 }
 
